@@ -117,6 +117,25 @@ theorem C20_burst32_detected (C : PayloadCodec) (hC : GoodCodec C) (pre suf : By
   rw [C20_extract_append C hC]
   simp [hne]
 
+/-- every change confined to two consecutive bytes is detected, wherever they are (also the last
+two bytes of the body, where `C20_burst32_detected` has no four bytes to speak about) -/
+theorem C20_burst16_detected (C : PayloadCodec) (hC : GoodCodec C) (pre suf : Bytes)
+    (a0 a1 b0 b1 : UInt8) (v : Version) (h : ¬ (a0 = b0 ∧ a1 = b1)) :
+    validate C ((pre ++ b0 :: b1 :: suf)
+      ++ footerBytes C { version := v, crc := crc32 (pre ++ a0 :: a1 :: suf) }) = .damaged := by
+  have hne := crc32_burst2 pre suf b0 b1 a0 a1 (fun ⟨h0, h1⟩ => h ⟨h0.symm, h1.symm⟩)
+  unfold validate
+  rw [C20_extract_append C hC]
+  simp [hne]
+
+/-- swapping two adjacent, different bytes anywhere in the body (the classic transposition
+error, which leaves length and byte histogram unchanged) is detected -/
+theorem C20_transposition_detected (C : PayloadCodec) (hC : GoodCodec C) (pre suf : Bytes)
+    (a b : UInt8) (v : Version) (h : a ≠ b) :
+    validate C ((pre ++ b :: a :: suf)
+      ++ footerBytes C { version := v, crc := crc32 (pre ++ a :: b :: suf) }) = .damaged :=
+  C20_burst16_detected C hC pre suf a b b a v (fun ⟨h0, _⟩ => h h0)
+
 /-- the burst guarantee at bit granularity: if the stored file has the length of the original and
 differs from it only inside some window of 32 consecutive bit positions (bits counted in the order
 the checksum consumes them: least significant bit of each byte first; the window need not be byte
@@ -304,5 +323,9 @@ example (v : Version) : True := by
   have := C20_two_bit_flips_detected decimalCodec C20_decimalCodec_good ([1] : Bytes) [2, 3] [4] 5 6 0 7
     (by decide) (by decide) (by decide) v
   trivial
+
+example : validate decimalCodec (([1, 3, 2, 4] : Bytes)
+    ++ footerBytes decimalCodec { version := ⟨0, 26, 0, 7⟩, crc := crc32 [1, 2, 3, 4] }) = .damaged :=
+  C20_transposition_detected decimalCodec C20_decimalCodec_good [1] [4] 2 3 _ (by decide)
 
 end TantivyModel.C20
